@@ -222,7 +222,16 @@ func GenWorld(r *Rng, opts GenOpts, variantCount int) *WorldSpec {
 
 	setupSeed := int64(r.Uint64())
 	build := func(variant int) string {
-		vr := Derive(setupSeed, "setup") // same stream for every variant: variants differ only by the knobs below
+		vr := Derive(setupSeed, "setup")
+		modAlias := modAlias
+		if variant == 6 && !blankSameBase {
+			// variant 6: the import of the model package got another local name
+			if modAlias == "model" {
+				modAlias = "mdl6"
+			} else {
+				modAlias = "model"
+			}
+		} // same stream for every variant: variants differ only by the knobs below
 		var imports []string
 		imp := func(alias, path string) {
 			if alias == "" || alias == path[strings.LastIndex(path, "/")+1:] {
@@ -274,6 +283,9 @@ func GenWorld(r *Rng, opts GenOpts, variantCount int) *WorldSpec {
 			}
 			if variant == 1 && ii == 0 {
 				nm++ // variant 1: a method was added
+			}
+			if variant == 5 && ii == 0 && nm > 1 {
+				nm-- // variant 5: a method was removed
 			}
 			for mi := 0; mi < nm; mi++ {
 				d := defs[vr.Intn(len(defs))]
@@ -417,6 +429,21 @@ func GenWorld(r *Rng, opts GenOpts, variantCount int) *WorldSpec {
 				gi.methods = append(gi.methods, m)
 			}
 			intfs = append(intfs, gi)
+		}
+		// a converter that is itself generated in this run
+		if (opts.Rich && vr.Chance(1, 3) || vr.Chance(1, 8)) && opts.Reject == "" {
+			gi := genIntf{name: "AddrConv", marked: true}
+			gi.methods = append(gi.methods, genMethod{name: "AddrToModel", notations: []string{":typecast"}, sig: "AddrToModel(" + domAlias + ".Address) " + modAlias + ".Address"})
+			intfs = append(intfs, gi)
+			for ii := range intfs {
+				for mi := range intfs[ii].methods {
+					m := &intfs[ii].methods[mi]
+					if strings.Contains(m.name, "DomainToModel") && !contains(m.notations, ":reverse") {
+						m.notations = append(m.notations, ":conv AddrToModel Addr")
+					}
+				}
+			}
+			feat["converter-generated-in-the-same-run"] = true
 		}
 		// optional local types + receiver interface
 		localBlock := ""
